@@ -24,7 +24,7 @@ def _union_members(repo: Repo, name: str) -> Set[str]:
     return {norm(e) for e in elts}
 
 
-def _isinstance_chain(fn: ast.FunctionDef, var: str) -> Tuple[List[Tuple[Set[str], List[ast.stmt]]], Optional[List[ast.stmt]]]:
+def _isinstance_chain_raw(fn: ast.FunctionDef, var: str) -> Tuple[List[Tuple[Set[str], List[ast.stmt]]], Optional[List[ast.stmt]]]:
     """branches of the isinstance dispatch on `var` inside the function's main loop, in either spelling:
     `if isinstance(var, X): .. elif .. else: ..`, or a run of `if isinstance(var, X): ..; continue` statements whose tail is the
     default branch. -> ([(types, body)], default body or None)"""
@@ -69,6 +69,70 @@ def _isinstance_chain(fn: ast.FunctionDef, var: str) -> Tuple[List[Tuple[Set[str
     raise AnalysisError(f'{fn.name}: isinstance dispatch chain not found')
 
 
+def _isinstance_chain(fn: ast.FunctionDef, var: str) -> Tuple[List[Tuple[Set[str], List[ast.stmt]]], Optional[List[ast.stmt]]]:
+    """the dispatch chain with nested dispatch resolved: a branch taken for several classes that tests `isinstance(var, X)` again
+    inside (a merged `if isinstance(op, (A, B)): try: if isinstance(op, A): .. else: ..`) is split per class - the inner tests
+    are folded for each class and the dead arms pruned; classes whose folded bodies read the same stay together."""
+    from ..pyfacts import clone, relink
+    chain, els = _isinstance_chain_raw(fn, var)
+
+    def types_of(t: ast.expr) -> Set[str]:
+        ty = t.args[1]          # type: ignore[attr-defined]
+        return {norm(e) for e in ty.elts} if isinstance(ty, ast.Tuple) else {norm(ty)}
+
+    def folded(stmts: List[ast.stmt], cls_name: str) -> List[ast.stmt]:
+        class F(ast.NodeTransformer):
+            def visit_Call(self, node: ast.Call) -> ast.AST:
+                self.generic_visit(node)
+                if dotted(node.func) == 'isinstance' and len(node.args) == 2 and norm(node.args[0]) == var:
+                    return ast.copy_location(ast.Constant(value=cls_name in types_of(node)), node)
+                return node
+
+            def visit_UnaryOp(self, node: ast.UnaryOp) -> ast.AST:
+                self.generic_visit(node)
+                if isinstance(node.op, ast.Not) and isinstance(node.operand, ast.Constant) and isinstance(node.operand.value, bool):
+                    return ast.copy_location(ast.Constant(value=not node.operand.value), node)
+                return node
+
+        def prune(ss: List[ast.stmt]) -> List[ast.stmt]:
+            out_: List[ast.stmt] = []
+            for st in ss:
+                for fld in ('body', 'orelse', 'finalbody'):
+                    sub = getattr(st, fld, None)
+                    if isinstance(sub, list) and sub and isinstance(sub[0], ast.stmt):
+                        setattr(st, fld, prune(sub))
+                if isinstance(st, ast.Try):
+                    for hd in st.handlers:
+                        hd.body = prune(hd.body)
+                if isinstance(st, ast.If) and isinstance(st.test, ast.Constant) and isinstance(st.test.value, bool):
+                    out_.extend(st.body if st.test.value else st.orelse)
+                    continue
+                out_.append(st)
+            return out_
+        mod = ast.Module(body=prune([F().visit(clone(st)) for st in stmts]), type_ignores=[])
+        relink(ast.fix_missing_locations(mod))
+        return mod.body
+    out: List[Tuple[Set[str], List[ast.stmt]]] = []
+    for types, body in chain:
+        nested = any(isinstance(c, ast.Call) and dotted(c.func) == 'isinstance' and len(c.args) == 2 and norm(c.args[0]) == var
+                     for st in body for c in ast.walk(st))
+        if len(types) < 2 or not nested:
+            out.append((types, body))
+            continue
+        groups: List[Tuple[Set[str], List[ast.stmt], str]] = []
+        for t in sorted(types):
+            fb = folded(body, t)
+            key = '\n'.join(norm(x) for x in fb)
+            for g in groups:
+                if g[2] == key:
+                    g[0].add(t)
+                    break
+            else:
+                groups.append(({t}, fb, key))
+        out.extend((g[0], g[1]) for g in groups)
+    return out, els
+
+
 def rule_dispatch(rep: Report, repo: Repo) -> None:
     rep.rule('C02.DISPATCH', 'the op-kind dispatch of the preprocessor and of the label resolver cover exactly the members of the '
              'Op / LastPhaseOp unions and end in a branch that raises a library error', 2)
@@ -100,6 +164,47 @@ def _self_updates(fn: ast.FunctionDef, attr: str) -> List[Tuple[str, str]]:
     return out       # type: ignore[return-value]
 
 
+def _advances(fn: ast.FunctionDef, attr: str, env_extra: Optional[Dict[str, int]] = None) -> List[Optional[Dict[int, int]]]:
+    """for every `+=`-like update of <obj>.<attr> in fn (named temporaries substituted): the added amount folded for w in
+    (8, 16, 64) -> {w: amount}, or None when it does not fold. `x += 2 * w`, `x = (w << 1) + x`, `op_size = w * 2; x += op_size`
+    all give {8: 16, 16: 32, 64: 128}."""
+    out: List[Optional[Dict[int, int]]] = []
+    for op, v in _self_updates(inline_pure_temps(fn), attr):
+        if op != '+=':
+            continue
+        res: Optional[Dict[int, int]] = {}
+        for wv in (8, 16, 64):
+            env = {'self.memory_width': wv, 'preprocessor_data.memory_width': wv, 'memory_width': wv}
+            env.update(env_extra or {})
+            try:
+                res[wv] = eval_int_expr(v, env)       # type: ignore[index]
+            except AnalysisError:
+                res = None
+                break
+        out.append(res)
+    return out
+
+
+def _growth(fn: ast.FunctionDef, target: str) -> List[Optional[List[str]]]:
+    """every extension of the list `target` (`self.fj_words`) in fn as the list of element texts it adds: `+= (a, b)`,
+    `+= [a, b]`, `x = x + (a, b)`, `.extend((a, b))`, `.extend([a, b])`, `.append(a)`; None for a shape that is not a literal."""
+    out: List[Optional[List[str]]] = []
+
+    def elems(e: ast.expr) -> Optional[List[str]]:
+        return [norm(x) for x in e.elts] if isinstance(e, (ast.Tuple, ast.List)) else None
+    for n in walk_no_nested(fn):
+        if isinstance(n, ast.AugAssign) and norm(n.target) == target and isinstance(n.op, ast.Add):
+            out.append(elems(n.value))
+        elif isinstance(n, ast.Assign) and norm(n.targets[0]) == target and isinstance(n.value, ast.BinOp) and isinstance(n.value.op, ast.Add) \
+                and norm(n.value.left) == target:
+            out.append(elems(n.value.right))
+        elif isinstance(n, ast.Call) and dotted(n.func) == f'{target}.extend' and len(n.args) == 1:
+            out.append(elems(n.args[0]))
+        elif isinstance(n, ast.Call) and dotted(n.func) == f'{target}.append' and len(n.args) == 1:
+            out.append([norm(n.args[0])])
+    return out
+
+
 def rule_addr_model(rep: Report, repo: Repo) -> None:
     rep.rule('C02.ADDR-MODEL', 'the preprocessor address model (curr_address; used for labels and $) and the emitter model '
              '(current_address; where words really go) advance by the same amount for every op kind: FlipJump/WordFlip +2w; '
@@ -115,8 +220,9 @@ def rule_addr_model(rep: Report, repo: Repo) -> None:
         raise AnalysisError('resolve_macro_aux: FlipJump/WordFlip branch not found')
     pre_fj = [lx.lin_show(to_lin(py_ir(s.value), penv)) for s in fj_branch[0] if isinstance(s, ast.AugAssign)
               and norm(s.target) == 'preprocessor_data.curr_address']
-    asm_fj = [lx.lin_show(to_lin(py_ir(v), aenv)) for op, v in _self_updates(repo.func(ASM, 'BinaryData.insert_fj_op'), 'current_address') if op == '+=']
-    rep.check(pre_fj == ['2*w'] and asm_fj == ['2*w'], 'C02.ADDR-MODEL', 'FlipJump/WordFlip', f'preprocessor +{pre_fj}, emitter +{asm_fj}',
+    TWO_W = {8: 16, 16: 32, 64: 128}
+    asm_fj = _advances(repo.func(ASM, 'BinaryData.insert_fj_op'), 'current_address')
+    rep.check(pre_fj == ['2*w'] and asm_fj == [TWO_W], 'C02.ADDR-MODEL', 'FlipJump/WordFlip', f'preprocessor +{pre_fj}, emitter + {asm_fj} (folded per width)',
               f'{PRE}:{rm.lineno}', expected='+2w on both sides')
     lr = repo.func(ASM, 'labels_resolve')
     lchain, _ = _isinstance_chain(lr, 'op')
@@ -192,16 +298,21 @@ def rule_addr_model(rep: Report, repo: Repo) -> None:
     rep.check(ok, 'C02.ADDR-MODEL', 'ReserveBits', f'preprocessor {body}; emitter {asm_rb} from {rb_call}', f'{PRE}:{ir.lineno}',
               expected='advance, then record the address AFTER the reserved bits; emitter jumps to it')
     # wflip area start = the preprocessor address at the end of the segment
-    patch = repo.func(PRE, 'PreprocessorData.patch_last_wflip_address')
-    p_ok = [norm(s) for s in patch.body] == ['self.last_new_segment.wflip_start_address = self.curr_address']
-    callers = [q for q in ('PreprocessorData.insert_segment', 'PreprocessorData.finish')
-               if any(dotted(c.func) == 'self.patch_last_wflip_address' for c in calls(repo.func(PRE, q)))]
-    # in insert_segment the patch must precede the cursor move and the new segment object
-    seq = [norm(s) for s in ins.body]
-    order_ok = 'self.patch_last_wflip_address()' in seq and seq.index('self.patch_last_wflip_address()') < seq.index('self.curr_address = next_segment_start') \
-        and seq.index('self.patch_last_wflip_address()') < seq.index('self.last_new_segment = new_segment')
-    rep.check(p_ok and len(callers) == 2 and order_ok, 'C02.ADDR-MODEL', 'wflip-area-start',
-              f'patched from curr_address in {callers}; before the cursor moves: {order_ok}', f'{PRE}:{patch.lineno}',
+    # forward substitution over insert_segment and finish (same-class helpers read through, values in terms of the ENTRY state):
+    # on every path the segment that is being closed gets wflip_start_address := the entry value of curr_address - i.e. before
+    # the cursor moves and before last_new_segment is replaced (a later store would name the new object / the moved cursor)
+    want_eff = 'self.last_new_segment.wflip_start_address = self.curr_address'
+    probs = []
+    for meth in ('insert_segment', 'finish'):
+        outs = method_outcomes(repo, PRE, 'PreprocessorData', meth, inline_public=True)
+        for o in outs:
+            stores = [e for e in o.effects if '.wflip_start_address = ' in e]
+            if stores != [want_eff]:
+                probs.append(f'{meth} [{", ".join(o.conds) or "always"}]: {stores or "no store"}')
+        if not outs:
+            probs.append(f'{meth}: no path')
+    rep.check(not probs, 'C02.ADDR-MODEL', 'wflip-area-start', '; '.join(probs[:3]) if probs else
+              'insert_segment and finish store the entry value of curr_address into the segment being closed, on every path', f'{PRE}:{ins.lineno}',
               expected='the auxiliary-op area starts where the segment\'s statements end')
 
 
@@ -262,9 +373,10 @@ def rule_paired(rep: Report, repo: Repo) -> None:
              'the same cursors', 5)
     aenv = Env({'self.memory_width': {'w': 1}})
     fj = canonical_fn(repo, ASM, 'BinaryData.insert_fj_op')
-    ext = [norm(s.value) for s in fj.body if isinstance(s, ast.AugAssign) and norm(s.target) == 'self.fj_words']
-    adv = [lx.lin_show(to_lin(py_ir(s.value), aenv)) for s in fj.body if isinstance(s, ast.AugAssign) and norm(s.target) == 'self.current_address']
-    rep.check(ext == ['(flip, jump)'] and adv == ['2*w'], 'C02.PAIRED-UPDATE', 'insert_fj_op', f'words += {ext}; address += {adv}', f'{ASM}:{fj.lineno}')
+    ext = _growth(fj, 'self.fj_words')
+    adv = _advances(repo.func(ASM, 'BinaryData.insert_fj_op'), 'current_address')
+    rep.check(ext == [['flip', 'jump']] and adv == [{8: 16, 16: 32, 64: 128}], 'C02.PAIRED-UPDATE', 'insert_fj_op',
+              f'words += {ext}; address += {adv} (folded per width)', f'{ASM}:{fj.lineno}', expected='two words (flip, jump) and +2w')
     sp = repo.func(ASM, 'BinaryData.get_wflip_spot')
     outs = method_outcomes(repo, ASM, 'BinaryData', 'get_wflip_spot')
     holes = [o for o in outs if 'self.padding_ops_indices' in o.conds]
